@@ -33,5 +33,20 @@ for d in sorted(glob.glob(os.path.join(HERE, "seeded", "*"))):
                                                   caught, esc(meta.get("note", status)))
 t3 = "| seed | property | change | needs, to manifest | caught by (quick tier) | note |\n|------|----------|--------|--------------------|------------------------|------|\n" + rows
 s = re.sub(r"<!-- SEED-TABLE -->.*?<!-- /SEED-TABLE -->", lambda m: "<!-- SEED-TABLE -->\n" + t3 + "<!-- /SEED-TABLE -->", s, flags=re.S)
+rows = ""
+for d in sorted(glob.glob(os.path.join(HERE, "neutral", "*"))):
+    mp, rp = os.path.join(d, "meta.json"), os.path.join(d, "result.json")
+    if not os.path.exists(mp):
+        continue
+    meta = json.load(open(mp))
+    res = json.load(open(rp)) if os.path.exists(rp) else {}
+    if not res.get("patch_applies", False):
+        outcome = "not evaluated (does not apply to the current HEAD)"
+    else:
+        al = res.get("caught_by") or []
+        outcome = ("**alarms: " + ", ".join(al) + "**") if al else "all 19 checks silent; suite " + (res.get("tests_tail", "").split(" in ")[0] or "?")
+    rows += "| `%s` | %s | %s | %s |\n" % (os.path.basename(d), esc(meta.get("summary", "")), outcome, esc(meta.get("note", "")))
+t4 = "| change | what it rewrites | outcome | note |\n|--------|------------------|---------|------|\n" + rows
+s = re.sub(r"<!-- NEUTRAL-TABLE -->.*?<!-- /NEUTRAL-TABLE -->", lambda m: "<!-- NEUTRAL-TABLE -->\n" + t4 + "<!-- /NEUTRAL-TABLE -->", s, flags=re.S)
 open(p, "w").write(s)
 print("tables:", len(fixed), "fixed,", len(open_), "open")
